@@ -684,6 +684,7 @@ class Walker:
         self.loop_stack = []
         self.snap_defs = {}
         self.local_ty = {}
+        self.opaque_names = {}   # local name -> term to bind instead of the initializer's value
         for p in body.params:
             if p.get("k") == "PBind" and (p.get("mut") or F.types[p["t"]].startswith("&mut")):
                 self.T.mut_locals.add(p["id"])
@@ -832,7 +833,9 @@ class Walker:
             self.local_ty[p["id"]] = self.F.types[p["t"]]
             if p.get("mut") or self.F.types[p["t"]].startswith("&mut"):
                 self.T.mut_locals.add(p["id"])
-            if term is None:
+            if p["name"] in self.opaque_names:
+                self.T.env[p["id"]] = self.opaque_names[p["name"]]
+            elif term is None:
                 self.T.env.pop(p["id"], None)
             else:
                 self.T.env[p["id"]] = term
